@@ -317,9 +317,27 @@ def cases(tier, seed):
                                                                                               else ['const', 'zero', 'zero', 'in'])) for k in amap}
         out.append({'shape': to_json(sh), 'targets': [{'kind': kind, 'name': 't0'}], 'assign': {'t0': amap}, 'K': 2,
                     'rhs': {'t0': rhs}})
+    # wide case statements: one target assigned in 7..17 sibling branches (with and without a closing otherwise; every branch, or
+    # all but some, assigning), and the same nested under a branch
+    for n in ((7, 8, 9, 10, 12, 13, 16, 17) if tier == 'quick' else range(6, 34)):
+        for last_o in (False, True):
+            flat = [['w', []] for _ in range(n)]
+            if last_o:
+                flat[-1] = ['o', []]
+            for ki, kind in enumerate(['wire', 'reg', 'wire_d', 'reg_d']):
+                if tier == 'quick' and (n + ki + last_o) % 2:
+                    continue
+                skip = {} if ki % 2 == 0 else {str(n // 2)}
+                out.append({'shape': flat, 'targets': [{'kind': kind, 'name': 't0'}],
+                            'assign': {'t0': {str(i): 'pre' for i in range(n) if str(i) not in skip}}, 'K': 2})
+        nested = [['w', [['w', []] for _ in range(n)]], ['o', []]]
+        out.append({'shape': nested, 'targets': [{'kind': 'wire_d', 'name': 't0'}],
+                    'assign': {'t0': {str(i): 'pre' for i in range(1, n + 2)}}, 'K': 2})
     out.append({'k': 'two_blocks', 'same_dict': True})
     out.append({'k': 'two_blocks', 'same_dict': False})
     out.append({'k': 'two_blocks', 'same_dict': False, 'second_defaults': False})
+    out.append({'k': 'two_blocks', 'same_dict': False, 'rename': True})
+    out.append({'k': 'two_blocks', 'same_dict': True, 'rename': True})
     for sh in shapes5:
         n = 5
         reps = 1 if tier == 'quick' else 24
@@ -392,6 +410,8 @@ def build_two_blocks(case):
     with pyrtl.conditional_assignment(defaults=first):
         with p0:
             o1 |= x
+        if case.get('rename'):
+            o1.name = 'o1_renamed'      # names are writable at any time; the defaults table is keyed by the wire, not by its name
     if second is None:
         cm = pyrtl.conditional_assignment       # a plain block: no defaults, whatever the previous block was given
     else:
@@ -400,6 +420,10 @@ def build_two_blocks(case):
         with p1:
             o2 |= y
             r.next |= z
+            if case.get('rename'):
+                o2.name = 'o2_renamed'
+        if case.get('rename'):
+            r.name = 'r_renamed'
     for n, w in (('oo1', o1), ('oo2', o2), ('or', r)):
         o = pyrtl.Output(DW, n)
         o <<= w
@@ -422,7 +446,7 @@ def run_two_blocks(case, ob, site):
             ob.prove('no-exception', z3.Not(r_.cond()), [], v, site=site + ':exception')
             continue
         goals = []
-        cur = v.reg('r', DW)
+        cur = v.reg('r_renamed' if case.get('rename') else 'r', DW)
         for t in range(K):
             i = lambda n, w=DW: v.inp(n, t, w)
             goals.append(('o1@%d' % t, to_bv(r_.trace['oo1'][t], DW) == z3.If(i('p0', 1) == 1, i('x'), i('d1')), site + ':value'))
